@@ -14,6 +14,7 @@ Key(i) == [j \in 1 .. 16 |-> i]
 Eui(i) == [j \in 1 .. 8 |-> i]
 W == [pan |-> 6699, epan |-> Eui(9), channel |-> 20, mask |-> "134217728", updateId |-> 3, netKey |-> Key(1), netSeq |-> 7,
       netFc |-> "74565", tclk |-> WellKnown, hashedTclk |-> Key(5), tcKnown |-> tcKnown, tcEui |-> Eui(4),
+      ieeeKnown |-> 1, ieee |-> Eui(4), tcSelf |-> tcKnown, canSet |-> 1,
       linkKeys |-> [i \in 1 .. nkeys |-> [key |-> Key(10 + i), partner |-> Eui(10 + i)]],
       children |-> [i \in 1 .. nchildren |-> [eui |-> Eui(20 + i), nwk |-> 1000 + i]]]
 (* the procedure: security state from the settings, store filled by the restore commands, read-back through the accessors *)
@@ -22,10 +23,10 @@ Sec == [netKey |-> W.netKey, netSeq |-> W.netSeq, flagNetKey |-> 1, flagPreKey |
         preKey |-> IF Hashes(ver) THEN W.hashedTclk ELSE W.tclk]
 St == [pan |-> W.pan, epan |-> W.epan, channel |-> W.channel, mask |-> W.mask, updateId |-> W.updateId, netKey |-> W.netKey,
        netSeq |-> W.netSeq, netFc |-> IF CanCounters(ver) THEN W.netFc ELSE "0", linkKeys |-> W.linkKeys,
-       children |-> IF CanChildren(ver) THEN W.children ELSE <<>>, running |-> 1]
+       children |-> IF CanChildren(ver) THEN W.children ELSE <<>>, running |-> 1, eui |-> W.ieee]
 Rd == [pan |-> St.pan, epan |-> St.epan, channel |-> St.channel, mask |-> St.mask, updateId |-> St.updateId, netKey |-> St.netKey,
        netSeq |-> St.netSeq, netFc |-> St.netFc, tclk |-> IF Hashes(ver) THEN WellKnown ELSE Sec.preKey,
-       hashedTclk |-> IF Hashes(ver) THEN Sec.preKey ELSE <<>>, linkKeys |-> St.linkKeys, children |-> St.children]
+       hashedTclk |-> IF Hashes(ver) THEN Sec.preKey ELSE <<>>, linkKeys |-> St.linkKeys, children |-> St.children, ieee |-> St.eui, tcPartner |-> St.eui]
 Order == <<"clearKeyTable">> \o (IF CanCounters(ver) THEN <<"setValue:VALUE_NWK_FRAME_COUNTER", "setValue:VALUE_APS_FRAME_COUNTER">> ELSE <<>>)
          \o <<"setInitialSecurityState">> \o [i \in 1 .. nkeys |-> IF ver >= 13 THEN "importLinkKey" ELSE "addOrUpdateKeyTableEntry"]
          \o (IF CanChildren(ver) THEN [i \in 1 .. nchildren |-> "setChildData"] ELSE <<>>) \o <<"formNetwork">>
@@ -33,5 +34,8 @@ Run == [ver |-> ver, w |-> W, sec |-> Sec, st |-> St, r |-> Rd, order |-> Order,
 Satisfiable == Violated(Run) = {}
 (* dropping the link keys or writing the counters after forming is caught *)
 LostKeysCaught == nkeys > 0 => "RoundTrip" \in Violated([Run EXCEPT !.r.linkKeys = <<>>])
+(* a stale or unwritten node address is caught: the NCP keeps another address than the one the trust-centre field names *)
+StaleAddressCaught == /\ "NodeAddress" \in Violated([Run EXCEPT !.st.eui = Eui(7), !.r.ieee = Eui(7), !.r.tcPartner = Eui(7)])
+                      /\ (tcKnown = 1 => "TcAddress" \in Violated([Run EXCEPT !.st.eui = Eui(7), !.r.ieee = Eui(7), !.r.tcPartner = Eui(7)]))
 LateCountersCaught == CanCounters(ver) => "OrderOk" \in Violated([Run EXCEPT !.order = Append(SelectSeq(Order, LAMBDA x : x # "setValue:VALUE_NWK_FRAME_COUNTER"), "setValue:VALUE_NWK_FRAME_COUNTER")])
 =============================================================================
